@@ -16,9 +16,9 @@ RULE = ("Cases: an initial collection (absent, empty, unsorted, with repeats inc
         "ascending and content, length, membership, lookup and KeyError behaviour equal a builtin set/dict driven by the same "
         "operations. Non-trivial: initial collection empty or with repeats, or >=3 successful mutations with mixed int/float "
         "values, or a foreign probe on a non-empty structure. Distinct = distinct case JSON.")
-EXPLANATION = ""
+EXPLANATION = "exhaustive sub-domains: all short histories over a 4-value (set) / 3-key (map) alphabet from 4 initial collections"
 ASSUMPTIONS = ["keys are ints/floats/bools (never NaN as content); exotic __lt__/__eq__ are not generated"]
-FLOORS = {"empty-init": (0.02, None), "repeats-in-init": (0.15, None), "foreign-probe": (0.25, None)}
+FLOORS = {"empty-init": (0.02, "drawn"), "repeats-in-init": (0.15, "drawn"), "foreign-probe": (0.25, "drawn")}
 SHARDS = {"quick": 12, "thorough": 14}
 CASE_FUEL = 200000
 
@@ -303,6 +303,8 @@ def run_map(case, ctx):
 
 
 def run_case(case, ctx):
+    if case.get("src") == "drawn":
+        ctx.label("drawn")
     try:
         if case["kind"] == "set":
             ctx.label("set")
@@ -319,15 +321,39 @@ def strategies(tier):
     num = st.sampled_from(NUMS)
     hist = st.one_of(codes(0, 10), codes(12, 40))
     set_init = st.one_of(st.none(), st.just([]), st.lists(num, max_size=8), st.lists(st.sampled_from([1, 1.0, True, 0, -0.0, False, 2]), min_size=2, max_size=6))
-    set_case = st.fixed_dictionaries({"kind": st.just("set"), "init": set_init, "ops": hist.map(lambda cs: [dec_set(c) for c in cs])})
+    set_case = st.fixed_dictionaries({"src": st.just("drawn"), "kind": st.just("set"), "init": set_init, "ops": hist.map(lambda cs: [dec_set(c) for c in cs])})
     pair = st.tuples(num, st.integers(0, 49)).map(list)
     pair_rep = st.tuples(st.sampled_from([1, 1.0, True, 0, -0.0, 2, 0.5]), st.integers(0, 49)).map(list)
     map_init = st.one_of(st.none(), st.just([]), st.lists(pair, max_size=8), st.lists(pair_rep, min_size=2, max_size=6))
-    map_case = st.fixed_dictionaries({"kind": st.just("map"), "init": map_init, "form": st.sampled_from(["pairs", "pairs", "dict", "gen"]),
+    map_case = st.fixed_dictionaries({"src": st.just("drawn"), "kind": st.just("map"), "init": map_init, "form": st.sampled_from(["pairs", "pairs", "dict", "gen"]),
                                       "ops": hist.map(lambda cs: [dec_map(c) for c in cs])})
     n = 3000000 if big else 30000
     return [("sets", set_case, n // 2), ("maps", map_case, n // 2)]
 
 
+def enum_sets(maxlen):
+    def gen():
+        vals = [0, 1.0, 2, True]
+        alphabet = [[op, v] for op in ("add", "discard", "remove", "in") for v in vals] + [["pop"], ["clear"]]
+        for init in (None, [], [2, 0], [1, 1.0, True]):
+            for ln in range(0, maxlen + 1):
+                for ops in itertools.product(alphabet, repeat=ln):
+                    yield {"kind": "set", "init": init, "ops": [list(o) for o in ops]}
+    return gen
+
+
+def enum_maps(maxlen):
+    def gen():
+        keys = [0, 1.0, 2]
+        alphabet = [["set", k, i] for i, k in enumerate(keys)] + [[op, k] for op in ("del", "get", "pop") for k in keys] + [["popitem"], ["setdefault", True, 9]]
+        for init, form in ((None, "pairs"), ([], "pairs"), ([[2, 5], [0, 6], [2, 7]], "pairs"), ([[1, 5], [1.0, 6]], "gen")):
+            for ln in range(0, maxlen + 1):
+                for ops in itertools.product(alphabet, repeat=ln):
+                    yield {"kind": "map", "init": init, "form": form, "ops": [list(o) for o in ops]}
+    return gen
+
+
 def enumerations(tier):
-    return []
+    n = 4 if tier == "thorough" else 3
+    return [("all-set-histories-len<=%d-4-values-4-initial-collections" % n, enum_sets(n), True),
+            ("all-map-histories-len<=%d-3-keys-4-initial-collections" % n, enum_maps(n), True)]
